@@ -3,11 +3,11 @@ import PdbVerif.Driver.Json
 import PdbVerif.Spec.C12
 import PdbVerif.Py.Float
 
-namespace Driver
-open Lean
+namespace Driver.SpecZ
+open Lean Driver
 
-def specOp (op : String) (j : Json) : Except String (Option Json) := do
-  match op with
+def op (name : String) (j : Json) : Except String (Option Json) := do
+  match name with
   | "capri" =>
     let f ← jRat j "f"; let l ← jRat j "l"; let i ← jRat j "i"
     -- published thresholds 0.1 0.3 0.5 / 1 5 10 / 1 2 4, the first two as the binary64 numbers a caller
@@ -23,4 +23,4 @@ def specOp (op : String) (j : Json) : Except String (Option Json) := do
     else pure (some (ratJ (Spec.dockq f l i d1 d2)))
   | _ => pure none
 
-end Driver
+end Driver.SpecZ
